@@ -923,6 +923,10 @@ mkincdecexpr(enum tokenkind op, struct expr *base, bool post)
 		error(&tok.loc, "operand of '%s' operator must be an lvalue", tokstr[op]);
 	if (base->qual & QUALCONST)
 		error(&tok.loc, "operand of '%s' operator is const qualified", tokstr[op]);
+	if (!(base->type->prop & PROPSCALAR))
+		error(&tok.loc, "operand of '%s' operator must have scalar type", tokstr[op]);
+	if (base->type->kind == TYPEPOINTER && (base->type->base->incomplete || base->type->base->kind == TYPEFUNC))
+		error(&tok.loc, "pointer operand of '%s' operator must be to complete object type", tokstr[op]);
 	e = mkexpr(EXPRINCDEC, base->type, base);
 	e->op = op;
 	e->u.incdec.post = post;
@@ -1257,6 +1261,8 @@ condexpr(struct scope *s)
 	e = binaryexpr(s, NULL, 0);
 	if (!consume(TQUESTION))
 		return e;
+	if (!(e->type->prop & PROPSCALAR))
+		error(&tok.loc, "first operand of conditional operator must have scalar type");
 	l = expr(s);
 	expect(TCOLON, "in conditional expression");
 	r = condexpr(s);
